@@ -18,6 +18,21 @@ class Head(packet.Packet):
         formats.UInt8Field('version', default=None),
     ]
 
+    def pre_dissect(self, s):
+        ''' The fixed-size head must be complete before decoding it. '''
+        if len(s) < 5:
+            raise formats.VerifyError('Partial contact header')
+        return s
+
+    def post_dissection(self, pkt):
+        ''' remove padding from payload list after disect() completes '''
+        formats.remove_padding(self)
+
+        if not self.payload:
+            raise formats.VerifyError('Contact header without payload')
+
+        packet.Packet.post_dissection(self, pkt)
+
 
 class ContactV3(formats.NoPayloadPacket):
     ''' TCPCLv3 contact header pseudo-message. '''
